@@ -157,7 +157,7 @@ def _call_with_timeout(packed):
         signal.setitimer(signal.ITIMER_REAL, 0)
 
 
-def _isolated_replay(replay_fn, model, name, cache, seconds: float = 90.0):
+def _isolated_replay(replay_fn, model, name, cache, seconds: float = 30.0):
     """Run a sidecar's native replay in a forked child: the changed code may loop or allocate without bound on the
     witness (a model can ask for a 2**60-byte buffer), which must not take the checker down.  Wall-clock limit, a memory
     cap of 6 GiB above the current size, result passed back as JSON.  Replays whose function ignores the model
@@ -166,6 +166,11 @@ def _isolated_replay(replay_fn, model, name, cache, seconds: float = 90.0):
     key = (id(replay_fn), json.dumps(model, sort_keys=True, default=repr) if not getattr(replay_fn, '__name__', '') == '_witness' else '')
     if key in cache:
         return cache[key]
+    # total budget per run: a changed library can make every replay slow; the verdicts do not depend on the replays
+    spent = cache.setdefault('__spent__', [0.0])
+    if spent[0] > 150.0:
+        return {'failed': False, 'error': 'native replay skipped: the replay budget of this run (150 s) is used up'}
+    t_start = time.time()
     ctx = mp.get_context('fork')
     rd, wr = ctx.Pipe(duplex=False)
 
@@ -198,7 +203,26 @@ def _isolated_replay(replay_fn, model, name, cache, seconds: float = 90.0):
         proc.kill()
     proc.join(5)
     cache[key] = out
+    spent[0] += time.time() - t_start
     return out
+
+
+def _cap_own_memory(extra_gib: int = 20) -> None:
+    """The checker itself runs code under test natively (minimising a failing history, cross-checks): a changed library
+    that allocates without bound must end this process with MemoryError (exit 3, a crash - never a verdict) instead of
+    exhausting the machine.  Pool workers inherit the cap and set their own tighter one."""
+    import resource
+    try:
+        with open('/proc/self/statm') as f:
+            current = int(f.read().split()[0]) * resource.getpagesize()
+        soft, hard = resource.getrlimit(resource.RLIMIT_AS)
+        want = current + (extra_gib << 30)
+        if hard != resource.RLIM_INFINITY:
+            want = min(want, hard)
+        if soft == resource.RLIM_INFINITY or soft > want:
+            resource.setrlimit(resource.RLIMIT_AS, (want, hard))
+    except (OSError, ValueError):
+        pass
 
 
 def _worker_init():
@@ -591,6 +615,7 @@ def main(argv=None) -> int:
     args = ap.parse_args(argv)
     seed = int(os.environ.get('VERIF_SEED', '0') or 0)
     sys.path.insert(0, VERIF)
+    _cap_own_memory()
     try:
         if args.lock:
             props = [args.prop] if args.prop != 'all' else sorted({f[:3] for f in os.listdir(os.path.join(VERIF, 'contracts')) if re.match(r'C\d\d_', f)})
